@@ -14,8 +14,9 @@ Mismatch1 == [op |-> "mismatch", t |-> NT("text")]
 Mismatch2 == [op |-> "mismatch", t |-> [k |-> "list", e |-> NT("int")]]
 Nested == [op |-> "nested_fail", t |-> [k |-> "list", e |-> NT("int")]]
 TooLarge == [op |-> "toolarge"]
-Ops == {AddInt, AddText, AddList, AddNull, Mismatch1, Mismatch2, Nested, TooLarge}
-Fails == {Mismatch1, Mismatch2, Nested, TooLarge}
+Late == [op |-> "late_typeck"]      \* a refusal that comes after bytes of the value were already written
+Ops == {AddInt, AddText, AddList, AddNull, Mismatch1, Mismatch2, Nested, TooLarge, Late}
+Fails == {Mismatch1, Mismatch2, Nested, TooLarge, Late}
 VARIABLE h
 Init == \/ \E n \in 1..MaxLen : \E s \in [1..n -> Ops] : (\E i \in 1..n : s[i] \in Fails) /\ h = [ops |-> s]
         \/ \E f \in Fails : h = [ops |-> <<AddInt, [op |-> "fill", n |-> 65533], f, AddText, [op |-> "toomany"], f, [op |-> "toomany"]>>]
